@@ -12,6 +12,7 @@ import (
 	"runtime/debug"
 	"sort"
 	"strings"
+	"syscall"
 	"time"
 
 	"github.com/cloudwego/dynamicgo/internal/simrt"
@@ -99,6 +100,12 @@ func main() {
 	debug.SetGCPercent(-1)
 	currentTier = *flagTier
 	warmFlavours()
+	if *flagProp == "C06" {
+		// an attacker-controlled count used as an allocation size must kill the worker (crash-class
+		// violation attributed through the journal) instead of eating the machine
+		lim := syscall.Rlimit{Cur: 12 << 30, Max: 12 << 30}
+		syscall.Setrlimit(syscall.RLIMIT_AS, &lim)
+	}
 	if *flagReplay != "" {
 		os.Exit(doReplay(*flagReplay))
 	}
